@@ -12,7 +12,7 @@ from . import c13
 ID = "C14"
 LEVEL = "proof"
 PROP_FILE = "Properties/C14.v"
-PROOF_FILES = ["Proofs/LayoutProofs.v", "Model/Layout.v", "Proofs/BranchesProofs.v", "Model/Branches.v",
+PROOF_FILES = ["Proofs/LayoutExtraProofs.v", "Proofs/LayoutProofs.v", "Model/Layout.v", "Proofs/BranchesProofs.v", "Model/Branches.v",
                "Proofs/ReconProofs.v", "Model/Recon.v", "Base/PathB.v"]
 TRUSTED = [
     "model Model/Layout.v of render/layout.py:_layout_branches/_layout_subtrees/_finalize_layout and utils/geometry.py over "
@@ -30,7 +30,7 @@ OPEN_GOALS = [
     "finiteness of all coordinates: holds trivially in the exact-rational model; it is not a statement about IEEE-754 floats "
     "(the correspondence converts every float with Fraction(), which rejects inf/nan, on every generated case)",
     "idempotence of the IMPLEMENTATION (second run on the same objects, after the first wrote colour features): the model is a pure "
-    "function (C14_layout_function); the second run is compared with the first by the harness on every generated case",
+    "Gallina function, so there is nothing to state about it; the second run is compared with the first by the harness on every generated case",
 ]
 TECHNIQUE = ("Coq proofs about an executable exact-rational model of layout.compute: structural induction for the mirror law between the two "
              "hand-written orientation branches, linear arithmetic over Q for containment/disjointness; model tied to the code by "
@@ -41,7 +41,7 @@ LEVEL_TEXT = ("Machine-checked, any tree sizes: the layout of every valid reconc
               "sizes, in both orientations: the boxes of the two child species lie inside the parent's box and do not overlap; no two trunks "
               "overlap provided every trunk lies inside its own species box, and that proviso cannot be dropped (the section-9 witness, evaluated "
               "by the kernel); the anchors/branches of every species are keyed exactly by the anchor sets/branch dicts of the C13 model, in which "
-              "every reference of a drawn branch exists; the layout is a function of its inputs.")
+              "every reference of a drawn branch exists.")
 LEVEL_NOTE = ("Partial: exact rationals, not IEEE floats (tied to the code by exact comparison on dyadic inputs only); idempotence of the "
               "implementation (second run on the same objects, after the first wrote colour features) and finiteness are checked by the harness on "
               "every generated case, as are all geometric clauses by an independent oracle. Known finding F-TRUNK-OVERLAP: a trunk overlap in which "
